@@ -53,7 +53,7 @@ SPEC = {
     "id": "C10",
     "coq_props": ["Properties/C10.v", "Corr/C10.v"],
     "module": "MS.Properties.C10",
-    "theorems": ["C10_mono", "C10_mono_raw", "C10_1sec_blocks", "C10_models_equal", "C10_1sec_blocks_flocq", "C10_enc_accuracy_partial", "C10_enc_position_partial", "C10_dec_fs_accuracy_partial", "C10_refuted", "C10_refuted_1min"],
+    "theorems": ["C10_mono", "C10_mono_raw", "C10_1sec_blocks", "C10_models_equal", "C10_1sec_blocks_flocq", "C10_enc_accuracy_partial", "C10_enc_position_partial", "C10_dec_fs_accuracy_partial"],
     "corr_require": "Require Import MS.Corr.C10.",
     "agrees": "C10.agrees",
     "in_domain": "C10.in_domain",
@@ -70,7 +70,7 @@ SPEC = {
         "axioms (Print Assumptions): C10_mono / C10_mono_raw / C10_refuted* go through Flocq's real-number specification: Coq.Reals axioms "
         "(ClassicalDedekindReals.sig_forall_dec, sig_not_dec, functional_extensionality_dep) and Classical_Prop.classic; C10_1sec_blocks uses "
         "Coq's primitive floats and 63-bit integers (PrimFloat.*, PrimInt63.* primitives; their VM evaluation follows the host CPU's IEEE-754)",
-        "translator gen/: the float constants ticksPerIntervalDivSecsPerDay (both copies), nanosecond, subnanosecond, round are regenerated "
+        "translator gen/: the float constants ticksPerIntervalDivSecsPerDay (both copies), nanosecond, round are regenerated "
         "from utils/io and executor as exact binary64 (mantissa, exponent) on every run (gen/conf.d/ticks.json)",
         "hand-written models coq/Model/Ticks.v (Flocq inductive binary64) and coq/Model/TicksPF.v (primitive-float mirror); BOTH are compared "
         "bit-exactly (ticks, sec, nanosec) with GetIntervalTicks32Bit / GetTimeFromTicks on every generated case; their equality is PROVED "
@@ -82,15 +82,19 @@ SPEC = {
     "assumptions": [
         "amd64 semantics of uint32(float64) / uint64(float64) = truncation (in range by C10_mono: ticks <= 2^32-1)",
         "the encoder is modelled as a function of the offset ts.Sub(baseTime); baseTime = IndexToTimeDepr is modelled and tied separately",
-        "1-second exactness is proved on a stated finite domain (8 blocks of 10^5 offsets; thorough tier sweeps more blocks), not on all 10^9 offsets",
-        "the guarded bound for the other timeframes (C10_bound_guarded) is stated but not proved; it is evaluated on every generated case",
+        "1-second exactness is proved on a stated finite domain (8 blocks of 10^5 offsets, unguarded since the F1 fix; thorough tier sweeps more "
+        "blocks), not on all 10^9 offsets",
+        "the precision bound for all timeframes (C10_full) is stated but not proved in general (encoder accuracy and the decoder's "
+        "fractionalSeconds accuracy are proved); it is evaluated on every generated case",
+        "F1 (GetTimeFromTicks rounding the seconds up) is FIXED in /repo (commit 551fdb4); the model follows the fixed code",
     ],
     "level": "proof",
     "level_text": "Coq theorems: C10_mono (for EVERY on-disk timeframe and every pair of offsets in an interval the encoder preserves order and fits uint32; "
-                  "real-analysis proof on the Flocq binary64 model, plus C10_mono_raw for all offsets < 2^62), C10_1sec_blocks (1-second round trip exact "
-                  "on a stated finite domain of 8*10^5 offsets, reflection on the primitive-float mirror), C10_refuted / C10_refuted_1min (F1: "
-                  "GetTimeFromTicks carries into the seconds when the decoded fraction is >= 0.999999995). Partial: the guarded precision bound for "
-                  "all timeframes is stated (C10_bound_guarded) and checked per case, not proved. Bit-exact differential tie of both models.",
+                  "real-analysis proof on the Flocq binary64 model; C10_mono_raw for all offsets < 2^62), C10_models_equal (primitive-float mirror = Flocq "
+                  "model, proved), C10_1sec_blocks(_flocq) (1-second round trip exact on a stated finite domain of 8*10^5 offsets, no guard since the F1 "
+                  "fix, vm_compute reflection), C10_enc_accuracy_partial / C10_enc_position_partial / C10_dec_fs_accuracy_partial (analytic error bounds). "
+                  "Partial: the full precision bound C10_full is stated and checked per case, not proved. Bit-exact differential tie of both models. "
+                  "The former defect F1 is fixed in the repository (fixed: line in known_findings.txt); its witnesses are regression inputs.",
     "level_note": "Axioms: Coq.Reals + classic (through Flocq), primitive float/int declarations. Trusted: Coq kernel/VM incl. primitive floats, gen "
                   "translator, harness. Modelled not verified: timeindex.go GetIntervalTicks32Bit/IndexToTimeDepr, rewritebuffer.go GetTimeFromTicks.",
     "design_ref": "§6 C10",
